@@ -20,8 +20,9 @@ fn cell(idx: u64, rec: &mut Rec) {
     let v10 = take(2) == 1;
     // 0: plain; 1: Expect: 100-continue answered at once by this 3xx (body methods); 2: no Location field;
     // 3: an unsolicited 100 Continue in front of the 3xx; 4: a request loaded with everything a redirect
-    // strips or keeps (explicit Host, cookie, its own framing header) redirected to another authority
-    let variant = take(5);
+    // strips or keeps (explicit Host, cookie, its own framing header) redirected to another authority;
+    // 5: the Location is the very URI that was just requested (a cookie bounce): the table applies all the same
+    let variant = take(6);
     if v10 && !http10_method(method) {
         return;
     }
@@ -51,6 +52,9 @@ fn cell(idx: u64, rec: &mut Rec) {
         format!("HTTP/1.1 {} Moved\r\nX-No: location\r\n", status).into_bytes()
     } else if variant == 4 {
         format!("HTTP/1.1 {} Moved\r\nLocation: https://b.test/next/place\r\n", status).into_bytes()
+    } else if variant == 5 {
+        rec.cov("redirect-to-the-same-uri");
+        format!("HTTP/1.1 {} Moved\r\nLocation: {}\r\n", status, if status % 2 == 0 { "http://a.test/start/here?x=1" } else { "/start/here?x=1" }).into_bytes()
     } else {
         format!("HTTP/1.1 {} Moved\r\nLocation: /next/place\r\n", status).into_bytes()
     };
@@ -193,13 +197,13 @@ impl Property for P {
         "C15"
     }
     fn rule(&self) -> String {
-        "exhaustive table: 9 methods x status 300..=399 x 2 auth policies x response body {none, Content-Length, chunked} x request version {1.1, 1.0 where the method exists} x {plain, Expect: 100-continue refused by this very 3xx, no Location field, an unsolicited 100 Continue first, a request loaded with explicit Host + cookie + its own framing header redirected to another authority}. Each cell runs a real exchange to the end and compares: redirect state entered <=> 3xx and not 304, Redirect.status() == status, as_new_flow outcome and new method == the table of the statement. class = (307/308 | other 3xx) x method x outcome.".into()
+        "exhaustive table: 9 methods x status 300..=399 x 2 auth policies x response body {none, Content-Length, chunked} x request version {1.1, 1.0 where the method exists} x {plain, Expect: 100-continue refused by this very 3xx, no Location field, an unsolicited 100 Continue first, a request loaded with explicit Host + cookie + its own framing header redirected to another authority, a Location that is the very URI just requested}. Each cell runs a real exchange to the end and compares: redirect state entered <=> 3xx and not 304, Redirect.status() == status, as_new_flow outcome and new method == the table of the statement. class = (307/308 | other 3xx) x method x outcome.".into()
     }
     fn assumptions(&self) -> Vec<String> {
         vec!["the table is restated from the property text in wire::redirect_method".into()]
     }
     fn workloads(&self, _tier: Tier) -> Vec<Workload> {
-        vec![Workload::new("table", 9 * 100 * 2 * 3 * 2 * 5, true, "full product; HTTP/1.0 cells for methods that do not exist in 1.0 are skipped")]
+        vec![Workload::new("table", 9 * 100 * 2 * 3 * 2 * 6, true, "full product; HTTP/1.0 cells for methods that do not exist in 1.0 are skipped")]
     }
     fn run_case(&self, _wl: &str, idx: u64, _seed: u64, rec: &mut Rec) {
         cell(idx, rec)
